@@ -445,7 +445,14 @@ class FortranCodegen(Stringifier):
         for v in o.symbols:
             # This is a bit dubious, but necessary, as we otherwise pick up
             # array dimensions from the internal representation of the variable.
-            var = self.visit(v, **kwargs) if o.dimensions is None else v.basename
+            # An entity with its own array spec overrides the DIMENSION attribute, though.
+            if o.dimensions is None or getattr(v, 'dimensions', None) not in (None, (), as_tuple(o.dimensions)):
+                var = self.visit(v, **kwargs)
+            else:
+                var = v.basename
+            if v.type.length is not None and v.type.length != o.symbols[0].type.length:
+                # Entity-specific character length
+                var += f'*({self.visit(v.type.length, **kwargs)})'
             initial = ''
             if v.type.initial is not None:
                 op = '=>' if v.type.pointer else '='
